@@ -101,6 +101,19 @@ pub fn run(ctx: &mut Ctx) {
         let lv = ctx.rng.range(4, 10) as u8; let z = ctx.rng.chance(1, 2);
         one(ctx, &d, lv, z, "lazy_cut");
     }
+    // stale hash entries almost a whole dictionary back (mostly level 1, whose matcher loads up to
+    // 4 KiB of lookahead into the ring before matching), and Huffman trees deeper than the limit
+    for _ in 0..(40 * ctx.scale) {
+        let len = ctx.rng.range(36000, 140000);
+        let d = plain::gen(&mut ctx.rng, "far_trigram", len);
+        let lv = *ctx.rng.pick(&[1u8, 1, 1, 1, 2, 3, 6, 9]); let z = ctx.rng.chance(1, 2);
+        one(ctx, &d, lv, z, "far_trigram");
+    }
+    for _ in 0..(12 * ctx.scale) {
+        let d = plain::gen(&mut ctx.rng, "deep_tree", 60000);
+        let lv = ctx.rng.range(1, 10) as u8; let z = ctx.rng.chance(1, 2);
+        one(ctx, &d, lv, z, "deep_tree");
+    }
     // several windows long
     let n_big = if ctx.quick() { 3 } else { 40 };
     for _ in 0..n_big {
